@@ -26,7 +26,10 @@ Operands == [ K0 |-> <<>>,
               KA |-> << <<5, 12>>, <<9998, 10003>>, <<19998, 20002>> >>,
               KB |-> << <<0, 5000>>, <<9000, 11000>> >>,
               KRr |-> << <<9000, 16000>> >> ]
-Lists == [ L1 |-> <<5, 3, 5, 70, 3>>, L2 |-> <<65535, 0, 65535>>, L3 |-> [i \in 1..40 |-> 4090 + i] ]
+Lists == [ L1 |-> <<5, 3, 5, 70, 3>>, L2 |-> <<65535, 0, 65535>>, L3 |-> [i \in 1..40 |-> 4090 + i],
+           \* non-decreasing with repeats, all equal, repeats at both ends, descending, a single value
+           L4 |-> <<3, 7, 7, 10>>, L5 |-> <<9, 9, 9>>, L6 |-> <<0, 0, 5, 65535, 65535>>, L7 |-> <<9, 7, 3>>,
+           L8 |-> <<100>> ]
 
 Mutators == {"Add", "Remove", "AddRange", "RemoveRange", "Clear", "AddMany"}
 Binary == {"Or", "And", "Xor", "AndNot", "ROr", "RAnd", "RXor", "RAndNot"}
